@@ -233,21 +233,36 @@ func NewOrderExpr(scanner parser.Scanner, a, key Expr) Expr {
 		func(ctx context.Context, a, less Value, local Scope) (Value, error) {
 			if x, ok := a.(Set); ok {
 				if l, ok := less.(Closure); ok {
+					// the first failure of the comparison function; the sort itself cannot fail
+					var lessErr error
 					values, err := OrderBy(x,
 						func(value Value) (Value, error) {
 							return value, nil
 						},
 						func(a, b Value) bool {
+							if lessErr != nil {
+								return false
+							}
 							c, err := SetCall(ctx, l, a)
 							if err != nil {
-								panic(err)
+								lessErr = err
+								return false
 							}
-							less, err := SetCall(ctx, c.(Closure), b)
+							f, is := c.(Set)
+							if !is {
+								lessErr = errors.Errorf("'order' rhs must be a function of two arguments")
+								return false
+							}
+							less, err := SetCall(ctx, f, b)
 							if err != nil {
-								panic(err)
+								lessErr = err
+								return false
 							}
 							return less.IsTrue()
 						})
+					if err == nil {
+						err = lessErr
+					}
 					if err != nil {
 						return nil, err
 					}
